@@ -3,6 +3,9 @@ props={json.loads(l)["id"]:json.loads(l) for l in open('/verif/properties.jsonl'
 ROUND4_HINT = """Earlier rounds of this exercise already produced changes of these kinds, so prefer something DIFFERENT in kind: caches / memoisation keyed on stale data, shared mutable state between copies, state left behind by a failed operation, a second use of the same handle after something was modified, dropped fields in one reader / writer class. Less used so far: a rarely used public entry point, operator form or keyword-argument combination of the same functionality; the interaction of two features that are each fine alone; boundary values of sizes and counts (0, 1, exactly at a limit, one past it); loops over conformers / atoms / bonds / records that skip or repeat one element under a specific condition; ordering assumptions (dict / set / directory order, sorted vs insertion order); integer / float / bytes / str conversions; resource handling (file modes, flush / close / lock order, partial writes); exit-code, signal and exception-type handling; defaults that change meaning when an argument is omitted vs passed explicitly."""
 
 
+ROUND5_HINT = """Four earlier rounds of this exercise already produced changes of these kinds, so prefer something DIFFERENT in kind: caches / memoisation, shared mutable state between copies, state left behind by a failed operation, second use of a handle, dropped fields, rarely used entry points / operator forms / keyword arguments, None-versus-empty arguments, boundary sizes, batch loops adopting an element twice, exit-code / signal handling, blank-line or token-level parsing slips. Less used so far: module-level constants and lookup tables the property depends on (element data, type / token tables, struct formats, default buffer sizes); comparison operators and thresholds (<= vs <, tolerance values, abs() dropped); equality / hashing / identity of objects (== versus is, __eq__ that ignores a field) where the code searches or removes by value; iteration over a container while it is modified; silent fallbacks (try / except that swallows an error and continues with a default); wrong exception class raised or caught so that a caller's handler no longer fires; subclass overrides that no longer call or match the base method; text encoding, newline and whitespace handling at file boundaries; sorting keys and stability; time-of-check / time-of-use of files and directories; environment or configuration values read at import time versus call time."""
+
+
 def prompt(pid, n=2, wt=None, letters="a, b, ...", extra=""):
     p=props[pid]
     wt=wt or f"/tmp/seed-{pid}"
@@ -30,7 +33,9 @@ Verify each yourself: with the patch applied demo.py fails and the test-suite re
 
 Reply with a short summary of each change (one paragraph each) and the verification output you observed."""
 if __name__=="__main__":
-    if len(sys.argv) > 2 and sys.argv[2] == "round4":
+    if len(sys.argv) > 2 and sys.argv[2] == "round5":
+        print(prompt(sys.argv[1], 2, wt=f"/tmp/seed5-{sys.argv[1]}", letters="i, j", extra=ROUND5_HINT))
+    elif len(sys.argv) > 2 and sys.argv[2] == "round4":
         print(prompt(sys.argv[1], 2, wt=f"/tmp/seed4-{sys.argv[1]}", letters="g, h", extra=ROUND4_HINT))
     else:
         print(prompt(sys.argv[1], int(sys.argv[2]) if len(sys.argv)>2 else 2))
